@@ -274,6 +274,58 @@ class State:
                         return False
                     return res != (k == "in")
             return False
+        if k == "badoperands":
+            # "these two operands do not go with this operator": refuted once both types are known
+            # and fit (numbers for arithmetic, two strs / bytes / lists for +, str % anything)
+            op, l, r = c[1], c[2], c[3]
+            tl, tr = self.types(l), self.types(r)
+            if tl is None or tr is None:
+                return False
+            if tl <= NUM and tr <= NUM and op in ("+", "-", "*", "%", "//", "/", "**"):
+                return True
+            if tl <= {"int", "bool"} and tr <= {"int", "bool"} and op in ("|", "&", "^", "<<", ">>"):
+                return True
+            if op == "+" and len(tl) == 1 and tl == tr and tl <= {"str", "bytes", "list", "tuple"}:
+                return True
+            if op == "%" and tl <= {"str"}:
+                # "template" % values: fails when the template's conversion specifiers and the values
+                # do not go together - decided for a constant template and a display of values only
+                if not (is_const(l) and isinstance(l[2], str)):
+                    return False
+                import re as _re
+
+                specs = _re.findall(r"%(?:\([^)]*\))?[#0\- +]*(?:\*|\d+)?(?:\.(?:\*|\d+))?[hlL]?(.)", l[2])
+                if any(ch not in "diouxXeEfFgGcrsa%" for ch in specs) or "(" in l[2] or "*" in l[2]:
+                    return False
+                need = len([ch for ch in specs if ch != "%"])
+                have = len(r[2]) if is_lit(r, "tuple") else 1
+                if any(ch in "diouxXeEfFgGc" for ch in specs):
+                    return False  # (numeric conversions also need numbers)
+                return need == have and l[2].count("%") == len(specs) + l[2].count("%%")
+            if op == "*" and ((tl <= {"str", "bytes", "list", "tuple"} and tr <= {"int", "bool"}) or (tr <= {"str", "bytes", "list", "tuple"} and tl <= {"int", "bool"})):
+                return True
+            return False
+        if k in ("nonstr-elements", "mixed-elements", "unhashable-elements"):
+            # "the elements of this collection may not all be str / mutually comparable / hashable":
+            # refuted by what is known about them where the collection is built
+            from .tables import HASHABLE, elements_type
+
+            x = c[1]
+            if isinstance(x, tuple) and x and x[0] == "param":
+                return False
+            et = elements_type(self, x)
+            if et is None:
+                return False
+            if k == "nonstr-elements":
+                return et <= {"str"}
+            if k == "mixed-elements":
+                return len(et) <= 1
+            return et <= HASHABLE
+        if k == "captured-stream":
+            # "this stream is one that was captured when a function was defined": holds for such a
+            # default value, undecided for a parameter, refuted for anything else
+            t = c[1]
+            return not (is_call(t, "captured-at-definition") or (isinstance(t, tuple) and t and t[0] == "param"))
         if k == "unsafe-text":
             # "this text may not be encodable": refuted when every piece it is built from is ASCII-safe
             from .tables import ascii_safe_leaf
@@ -379,6 +431,8 @@ def structural_type(t):
         return frozenset([t[1]])
     if k == "fstr":
         return frozenset(["str"])
+    if k == "global" and len(t) == 2 and isinstance(t[1], str) and t[1].startswith(("ext:os.O_", "ext:stat.S_", "ext:os.SEEK_", "ext:errno.E")):
+        return frozenset(["int"])  # flag / mode / errno constants of the os, stat and errno modules
     if k == "comp":
         return frozenset([{"list": "list", "set": "set", "dict": "dict", "gen": "generator"}[t[1]]])
     if k == "closure" or k == "partial":
@@ -1177,6 +1231,66 @@ class Walker:
             outs.append((s, "fall", None))
         return outs
 
+    def s_Match(self, n, st):
+        """match subject: case ...  - the cases are tried in order; the patterns supported are
+        literals, `cls()` / `cls(name)` for the builtin scalar types, captures, `_`, `|` and `as`;
+        with no matching case the statement does nothing"""
+        subj = "$match_%d_%d" % (n.lineno, n.col_offset)
+
+        def load():
+            return ast.Name(id=subj, ctx=ast.Load())
+
+        def test_of(pat, binds):
+            if isinstance(pat, ast.MatchValue):
+                return ast.Compare(left=load(), ops=[ast.Eq()], comparators=[pat.value])
+            if isinstance(pat, ast.MatchSingleton):
+                return ast.Compare(left=load(), ops=[ast.Is()], comparators=[ast.Constant(value=pat.value)])
+            if isinstance(pat, ast.MatchAs):
+                inner = test_of(pat.pattern, binds) if pat.pattern is not None else ast.Constant(value=True)
+                if pat.name:
+                    binds.append(pat.name)
+                return inner
+            if isinstance(pat, ast.MatchOr):
+                return ast.BoolOp(op=ast.Or(), values=[test_of(p, []) for p in pat.patterns])
+            if isinstance(pat, ast.MatchClass) and isinstance(pat.cls, ast.Name) and pat.cls.id in ("str", "int", "float", "bool", "bytes", "list", "dict", "tuple", "set") and not pat.kwd_patterns and len(pat.patterns) <= 1:
+                t = ast.Call(func=ast.Name(id="isinstance", ctx=ast.Load()), args=[load(), ast.Name(id=pat.cls.id, ctx=ast.Load())], keywords=[])
+                if pat.patterns:
+                    sub = pat.patterns[0]
+                    if not (isinstance(sub, ast.MatchAs) and sub.pattern is None):
+                        self.unsupported(n, "class pattern with a nested pattern")
+                    if sub.name:
+                        binds.append(sub.name)
+                return t
+            self.unsupported(n, "match pattern")
+
+        outs = []
+        for s0, k0, v0 in self.expr(n.subject, st):
+            if k0 != "val":
+                outs.append((s0, k0, v0))
+                continue
+            s0 = s0.copy()
+            s0.env[subj] = v0
+            chain = None
+            for case in reversed(n.cases):
+                binds = []
+                test = test_of(case.pattern, binds)
+                if case.guard is not None:
+                    # (the guard sees the captured names)
+                    test = ast.BoolOp(op=ast.And(), values=[test, case.guard]) if not binds else None
+                    if test is None:
+                        self.unsupported(n, "guard on a capturing pattern")
+                body = [ast.Assign(targets=[ast.Name(id=b, ctx=ast.Store())], value=load()) for b in binds] + list(case.body)
+                node = ast.If(test=test, body=body, orelse=[chain] if chain is not None else [])
+                chain = node
+            for x in ast.walk(chain):
+                if not hasattr(x, "lineno"):
+                    ast.copy_location(x, n)
+            ast.fix_missing_locations(chain)
+            for s2, k2, p2 in self.stmt(chain, s0):
+                s2.env.pop(subj, None)
+                outs.append((s2, k2, p2))
+        return outs
+
     def s_Continue(self, n, st):
         return [(st, "continue", None)]
 
@@ -1598,6 +1712,22 @@ class Walker:
                 self.rz(outs, s, node, "TypeError", "iteration over a value that may not be iterable", [("nottype", it, CONTAINERS)])
         return base, mode
 
+    def _elem_of_class_table(self, b):
+        """b is an element of a module-level display all of whose items are classes / builtin types"""
+        if not (isinstance(b, tuple) and len(b) == 3 and b[0] == "elem"):
+            return False
+        base = b[1]
+        if not (isinstance(base, tuple) and len(base) == 2 and base[0] == "global" and base[1].startswith("const:")):
+            return False
+        lit = self.eng.const_literal(base[1][6:])
+        return lit is not None and is_lit(lit) and lit[1] in ("list", "tuple", "set") and bool(lit[2]) and all(isinstance(i, tuple) and len(i) == 2 and i[0] == "global" and i[1].startswith(("builtin:", "class:")) for i in lit[2]) and not self.eng.is_rebound(*base[1][6:].rsplit(".", 1))
+
+    def _certainly_nonempty(self, base, s):
+        if is_lit(base) and base[2]:
+            return True
+        ln = CallT("builtin:len", [base])
+        return bool(s.holds(("nonempty", base)) or s.holds(("truthy", base)) or s.holds(("cmp", ">", ln, C(0))) or s.holds(("cmp", ">=", ln, C(1))) or s.holds(("ne", ln, C(0))))
+
     def _lazy_map_loop(self, n, st):
         """for y in map(f, xs): body  is  for x in xs: y = f(x); body  (map is lazy: f runs on
         each element right before the body does).  f is evaluated once, before the loop."""
@@ -1683,6 +1813,12 @@ class Walker:
         after = s.copy()
         for nm in self._assigned_names(body) | set(_names_of_target(target)):
             after.env[nm] = Fresh("afterloop_" + nm)
+        # a name that the loop binds for the first time (its target, or an assignment in its body) has
+        # no value after a loop that did not run at all
+        if not self._certainly_nonempty(base, s):
+            for nm in self._assigned_names(body) | set(_names_of_target(target)):
+                if nm not in s.env and not nm.startswith("$") and nm in after.env:
+                    after.env[nm] = ("maybeunbound", after.env[nm], "the loop that binds it may not run at all (empty %s)" % show(base)[:40])
         # `except E as name:` deletes `name` when the handler is left - also a binding made before
         # the loop: after an iteration that went through the handler the name is unbound
         hnames = {h.name for b in body for h in ast.walk(b) if isinstance(h, ast.ExceptHandler) and h.name}
@@ -1826,7 +1962,15 @@ class Walker:
     def handler_classes(self, h, st):
         if h.type is None:
             return ["BaseException"]
-        nodes = h.type.elts if isinstance(h.type, ast.Tuple) else [h.type]
+        def value_of(x):
+            # `except A or B:` - the expression is evaluated like any other: classes are truthy,
+            # so `A or B` is A and `A and B` is B (a tuple `(A, B)` was meant)
+            while isinstance(x, ast.BoolOp) and x.values:
+                x = x.values[0] if isinstance(x.op, ast.Or) else x.values[-1]
+            return x
+
+        t0 = value_of(h.type)
+        nodes = [value_of(x) for x in t0.elts] if isinstance(t0, ast.Tuple) else [t0]
         out = []
         for x in nodes:
             if isinstance(x, ast.Name) and x.id in st.env and is_lit(st.env[x.id]) and st.env[x.id][1] == "tuple" and all(isinstance(it, tuple) and len(it) == 2 and it[0] == "global" for it in st.env[x.id][2]):
@@ -1984,9 +2128,9 @@ class Walker:
     def e_Name(self, e, st):
         if e.id in st.env and "$global:" + e.id not in st.env:
             t = st.env[e.id]
-            if isinstance(t, tuple) and len(t) == 2 and t[0] == "maybeunbound":
+            if isinstance(t, tuple) and len(t) in (2, 3) and t[0] == "maybeunbound":
                 outs = []
-                self.rz(outs, st, e, "UnboundLocalError", "'%s' is deleted when an `except ... as %s` clause inside the loop is left" % (e.id, e.id), [])
+                self.rz(outs, st, e, "UnboundLocalError", ("'%s': %s" % (e.id, t[2])) if len(t) == 3 else "'%s' is deleted when an `except ... as %s` clause inside the loop is left" % (e.id, e.id), [])
                 s2 = st.copy()
                 s2.env[e.id] = t[1]
                 outs.append((s2, "val", t[1]))
@@ -2121,6 +2265,19 @@ class Walker:
                 continue
             if isinstance(b, tuple) and b[0] == "param" and (b, e.attr) in s.env.get("$heap", {}):
                 outs.append((s, "val", s.env["$heap"][(b, e.attr)]))
+                continue
+            if e.attr == "args" and isinstance(b, tuple) and b and b[0] == "excobj":
+                t_args = ("attr", b, "args")  # the arguments an exception was made with: a tuple
+                s = s.copy()
+                s.add(("type", t_args, frozenset(["tuple"])))
+                outs.append((s, "val", t_args))
+                continue
+            if e.attr in ("__name__", "__qualname__", "__module__") and (is_call(b, "builtin:type") or (isinstance(b, tuple) and len(b) == 2 and b[0] == "global" and b[1].startswith(("builtin:", "class:", "func:"))) or b[0] == "excobj" or self._elem_of_class_table(b)):
+                # the name of a class (type(x).__name__, dict.__name__, an exception's class): a str
+                t_nm = ("attr", b, e.attr)
+                s = s.copy()
+                s.add(("type", t_nm, frozenset(["str"])))
+                outs.append((s, "val", t_nm))
                 continue
             if isinstance(b, tuple) and len(b) == 3 and b[0] == "nt" and b[1] == "inspect.BoundArguments":
                 outs.append((s, "val", b[2][0] if e.attr == "arguments" else ("attr", b, e.attr)))
@@ -2420,6 +2577,8 @@ class Walker:
                     res = "bytes"
                 elif tl <= NUM and tr <= NUM and op in ("+", "-", "*", "%", "//", "/"):
                     res = "num"
+                elif tl <= {"int", "bool"} and tr <= {"int", "bool"} and op in ("|", "&", "^"):
+                    res = "num"  # bit operations on integers (flag words)
                 elif tl <= {"str"} and op == "%":
                     res = "str"
                 elif tl <= {"str"} and tr <= {"int", "bool"} and op == "*":
@@ -2635,8 +2794,13 @@ class Walker:
             elif ts & {"list", "tuple", "str", "bytes"} and not is_slice and (kt is None or not kt <= {"int", "bool"}):
                 self.rz(outs, s, e, "TypeError", "sequence index that may not be an integer", [("nottype", b, frozenset(["dict"])), ("notok", t)])
             if (ts is None or "dict" in ts) and not s.holds(("has", b, k)):
-                self.rz(outs, s, e, "KeyError", "key that may be absent", [("nothas", b, k), ("notok", t)])
-            if (ts is None or ts & {"list", "tuple", "str", "bytes"}) and not is_slice and (kt is None or kt & {"int", "bool"}):
+                self.rz(outs, s, e, "KeyError", "key that may be absent", [("nothas", b, k), ("notok", t)] + ([("type", b, frozenset(["dict"]))] if ts is None else []))
+            in_range = False
+            if is_const(k) and isinstance(k[2], int) and not isinstance(k[2], bool):
+                ln = CallT("builtin:len", [b])
+                need = k[2] + 1 if k[2] >= 0 else -k[2]
+                in_range = any(s.holds(("eq", ln, C(n))) for n in range(need, need + 4)) or s.holds(("cmp", ">=", ln, C(need))) or s.holds(("cmp", ">", ln, C(need - 1)))
+            if (ts is None or ts & {"list", "tuple", "str", "bytes"}) and not is_slice and (kt is None or kt & {"int", "bool"}) and not in_range:
                 self.rz(outs, s, e, "IndexError", "index that may be out of range", [("nottype", b, frozenset(["dict"])), ("notok", t)])
             s = s.copy()
             s.add(("ok", t))
